@@ -1,11 +1,17 @@
 """
 C14 — XPath evaluation selects exactly the elements the expression denotes.
 
-Stream `C14`: (document, expression syntax tree, receivers).  The harness renders the syntax tree to *text* with
-randomised white space, quote style and letter case (that is what the library gets), sends the *tree* to the Lean
-driver (model: flatten → compile with constant folding → pass-based evaluator → step driver) and evaluates the tree
-with an independent reference interpreter (oracle).  Compared: result id lists per receiver, `err` for any exception.
+Stream `C14`, first kind of case: (document, expression syntax tree, receivers).  The harness renders the syntax tree to
+*text* with randomised white space, quote style and letter case (that is what the library gets), sends the tree *and the
+text* to the Lean driver (model: parse the text with the model's tokenizer → compile with constant folding → pass-based
+evaluator → step driver; `parsediff` when the parse is not the flat form of the tree) and evaluates the tree with an
+independent reference interpreter (oracle).  Compared: result id lists per receiver, `err` for any exception.
+
+Second kind of case (`{'hostile': text}`): arbitrary, mostly malformed expression texts.  Compared: "raises" or the canonical
+print of the parsed operations (`lib_parsed` below = read-only introspection of `XPathExpression(text).orderedOperations`
+against the model's `parseExpr` + constant folding).  No document, no oracle (the property says nothing about them).
 """
+import struct
 import itertools
 import random
 
@@ -498,6 +504,192 @@ def lib_eval(B, text, recv, via):
 
 N_VIA = {'doc': 4, 'el': 3, 'coll': 4}
 
+
+# ------------------------------------------------------------------------------------------------
+# canonical print of the library's parsed operations (hostile texts)
+
+FIND_KIND = {
+    '_mk_xpath_op_filter_by_tagname_one_level_function': 'one',
+    '_mk_xpath_op_filter_by_tagname_one_level_function_or_self': 'oneself',
+    '_mk_xpath_op_filter_by_tagname_multi_level_function': 'multi',
+    '_mk_xpath_op_filter_by_tagname_multi_level_function_or_self': 'multiself',
+    '_mk_xpath_op_filter_by_parent_tagname_one_level_function': 'parent',
+    '_mk_xpath_op_filter_by_ancestor_tagname_multi_level_function': 'anc',
+    '_mk_xpath_op_filter_by_ancestor_or_self_tagname_multi_level_function': 'aos',
+    '<lambda>': 'self',
+}
+OP_CLASS = {
+    'BodyElementOperation_Concat': 'cat', 'BodyElementOperation_Math_Plus': 'add', 'BodyElementOperation_Math_Minus': 'sub',
+    'BodyElementOperation_Math_Multiply': 'mul', 'BodyElementOperation_Math_Divide': 'div',
+    'BodyElementOperation_Math_Modulus': 'mod',
+    'BodyElementComparison_Equal': 'eq', 'BodyElementComparison_NotEqual': 'ne', 'BodyElementComparison_LessThan': 'lt',
+    'BodyElementComparison_LessThanOrEqual': 'le', 'BodyElementComparison_GreaterThan': 'gt',
+    'BodyElementComparison_GreaterThanOrEqual': 'ge',
+    'BodyElementBooleanOps_And': 'and', 'BodyElementBooleanOps_Or': 'or',
+}
+
+
+def float_bits(x):
+    if x != x:
+        return 'nan'
+    return str(struct.unpack('>Q', struct.pack('>d', x))[0])
+
+
+def canon_be(e):
+    """one body element -> nested list (the driver's ELEM)"""
+    from AdvancedHTMLParser.xpath import _body as B
+    from AdvancedHTMLParser.xpath.null import Null
+    cn = type(e).__name__
+    if isinstance(e, B.BodyLevel):
+        return ['group'] + [canon_be(x) for x in e.bodyElements]
+    if isinstance(e, B.BodyElementValue):
+        v = e.getValue()
+        if isinstance(e, B.BodyElementValue_Null) or v is Null:
+            return ['null']
+        if isinstance(v, bool):
+            return ['bool', 1 if v else 0]
+        if isinstance(v, float):
+            return ['num', float_bits(v)]
+        if isinstance(v, str):
+            return ['str', enc(v)]
+        return ['unknown-value', enc(repr(v))]
+    if isinstance(e, B.BodyElementValueGenerator_FetchAttribute):
+        return ['attr', enc(e.attributeName)]
+    if isinstance(e, B.BodyElementValueGenerator_Text):
+        return ['text']
+    if isinstance(e, B.BodyElementValueGenerator_Last):
+        return ['last']
+    if isinstance(e, B.BodyElementValueGenerator_Position):
+        return ['pos']
+    if isinstance(e, B.BodyElementValueGenerator_Function_Concat):
+        return ['concat'] + [canon_be(a) for a in e.fnArgElements]
+    if isinstance(e, B.BodyElementValueGenerator_Function_Contains):
+        return ['contains'] + [canon_be(a) for a in e.fnArgElements]
+    if isinstance(e, B.BodyElementValueGenerator_Function_NormalizeSpace):
+        return ['nspace'] + [canon_be(a) for a in e.fnArgElements]
+    if cn in OP_CLASS:
+        return ['op', OP_CLASS[cn]]
+    return ['unknown', enc(cn)]
+
+
+def lib_parsed(text):
+    """`err` when the constructor raises, else `(parsed OP*)`."""
+    from AdvancedHTMLParser.xpath import XPathExpression
+    from AdvancedHTMLParser.xpath import _body as B
+    try:
+        ops = XPathExpression(text).orderedOperations
+    except Exception:
+        return 'err'
+    out = []
+    for op in ops:
+        if isinstance(op, B.BodyLevel_Top):
+            out.append(['pred'] + [canon_be(x) for x in op.bodyElements])
+            continue
+        f = op.filterFunction
+        kind = FIND_KIND.get(f.__qualname__.split('.')[0], 'unknown:' + f.__qualname__)
+        if kind == 'self':
+            out.append(['find', 'self'])
+            continue
+        name = '*'
+        if f.__closure__:
+            for var, cell in zip(f.__code__.co_freevars, f.__closure__):
+                if var == 'tagName':
+                    name = cell.cell_contents
+        out.append(['find', kind, enc(name)])
+    return sx(*(['parsed'] + out))
+
+
+# hostile texts ----------------------------------------------------------------------------------
+
+HOSTILE_FIXED = [
+    '', ' ', '\t \n', '/', '//', '///x', '/ /x', '/x/', '//*', '/*/*', '/x y', 'x', '/1x', '/_x1', '/x-y', ' \n/x\n ', '/x\n/y',
+    '/x[]', '/x[ ]', '/x[\t]', '/x[1][]', '/x[][1]', '/x[1][][2]', '/x[1] [2]', '/x [1]', '/x[1]/y[2]', '/x[1', '/x 1]', '/x[1]]',
+    '/x[[1]', '/x["]"]', "/x[']']", '/x["]', '/x["a]"', '/x["a\\"]', '/x["a\\"]"]', '/x["a\\"b"]', '/x["a\\\\"]', "/x['a\\']", "/x['a\\'b']",
+    '/x["a\'b"]', '/x[\'a"b\']', '/x["a" "b"]', '/x["a"\']\'"]"]', '/x[\'"][@a="]', '/x[@a="\']"][\'"]',
+    '/child::x', '/CHILD::X', '/child::node()', '/child::child::node()', '/child::child::node( )', '/child::child::node(\t)',
+    '/child::child::NODE()', '/child::CHILD::node()', '/parent::Child::node()[1]', '//CHILD::node()', '/DIV', '//SpAn[1]', '/child::child::node', '/child::child::node(', '/x::node()', '/child::node()[1]', '/Child::node()',
+    '/x::y', '/x::y()', '/x::1', '/x::', '/parent::', '/parent::[1]', '/parent::*', '/parent:: x', '/parent ::x', '/parent:x',
+    '/self::x', '/self::*[1]', '//self::x/y', '/ancestor::x', '/ancestor-or-self::x', '/ancestor-or-selfx', '/ancestor-or::x',
+    '/descendant::x', '/descendant-or-self::*', '/DESCENDANT-OR-SELF::x', '/descendant-or-self::x::node()', '/following::x',
+    '/x[-5]', '/x[-.5]', '/x[- .5]', '/x[5.]', '/x[.5]', '/x[.]', '/x[1.2.3]', '/x[1 -.5]', '/x[1 - .5]', '/x[1-.5]', '/x[1-1]', '/x[--1]',
+    '/x[- -.5]', '/x[1e3]', '/x[007]', '/x[1 2]', '/x[12abc]', '/x[@n-1]', '/x[@n -1]', '/x[@n - 1]', '/x[@-n]', '/x[@1]', '/x[@]',
+    '/x[@*]', '/x[@* = 1]', '/x[@ n]', '/x[@n@m]', '/x[@_]', '/x[@a-]', '/x[@a--b = 1]',
+    '/x[1 and 2]', '/x[1 and2]', '/x[1and 2]', '/x[1 AND\t2]', '/x[1 and]', '/x[and 1]', '/x[1 or 2]', '/x[1 or2]', '/x[1 or]', '/x[or]',
+    '/x[1 div 2]', '/x[1 div2]', '/x[1div2]', '/x[4 divx]', '/x[div]', '/x[1 mod 2]', '/x[5mod2]', '/x[1 mod]', '/x[mod 2]', '/x[6 DIV 3]',
+    '/x[1<=2]', '/x[1< =2]', '/x[1=<2]', '/x[1>=2]', '/x[1> =2]', '/x[1!=2]', '/x[1! =2]', '/x[1!2]', '/x[1==2]', '/x[1<>2]', '/x[1 = ]',
+    '/x[= 1]', '/x[1 + ]', '/x[+ 1]', '/x[1 + + 1]', '/x[1 || 2]', '/x["a" || "b"]', '/x["a"||"b" = "ab"]', '/x[1 | 2]', '/x[1 * 2]', '/x[*]',
+    '/x[1 + 2 = 3]', '/x[1 + 2 * 3 = 7]', '/x["a" + 1]', '/x[(1 div 0) $]', '/x[1 div 0]', '/x[1 mod 0]', '/x[2 = 1 + 1 and 3 > 2]',
+    '/x[()]', '/x[( )]', '/x[(]', '/x[)]', '/x[(1]', '/x[1)]', '/x[(1)]', '/x[((1))]', '/x[(1))]', '/x[((1)]', '/x[(1)(2)]', '/x[(1) + (2)]',
+    '/x[( 1 + 2 ) * 3 = 9]', '/x[(\n1)]', '/x[(1\n)]', '/x[(1) = "a\nb"]', '/x["a\nb" = (1)]', '/x[(1) \n]', '/x[1\n+ 2]',
+    '/x[text()]', '/x[text( )]', '/x[text ()]', '/x[TEXT()]', '/x[text(1)]', '/x[text(]', '/x[text]', '/x[text() = "a"]', '/x[last()]',
+    '/x[last ( ) - 1]', '/x[position() = last()]', '/x[position()=1]', '/x[positio()]', '/x[lastx()]', '/x[last()x]',
+    '/x[concat()]', '/x[concat(]', '/x[concat( ]', '/x[concat("a")]', '/x[concat("a",)]', '/x[concat("a","b")]', '/x[concat("a","b",)]',
+    '/x[concat(,"a","b")]', '/x[concat("a",,"b")]', '/x[concat("a" "b", "c")]', '/x[concat("a", "b"]', '/x[concat("a", "b"))]',
+    '/x[concat("a", @b, text())]', '/x[concat("a", 1)]', '/x[concat(("a"), ("b" || "c"))]', '/x[CONCAT ( "a" , "b" ) = "ab"]',
+    '/x[concat("a", concat("b", "c"))]', '/x[concat("a", concat("b", @c))]', '/x[concat(1 + 1, "b")]', '/x[concat("a,b", "c)")]',
+    '/x[contains()]', '/x[contains("a")]', '/x[contains("a","b")]', '/x[contains("a","b",)]', '/x[contains("a","b","c")]',
+    '/x[contains(@a, "b") and 1 = 1]', '/x[contains (text(), "b")]', '/x[contains("a", "b") = contains("b", "a")]',
+    '/x[normalize-space()]', '/x[normalize-space( )]', '/x[normalize-space(\t)]', '/x[normalize-space(@a)]', '/x[normalize-space(@a,)]',
+    '/x[normalize-space(@a,@b)]', '/x[normalize-space]', '/x[normalize-space(]', '/x[normalize_space()]', '/x[NORMALIZE-SPACE() = "a"]',
+    '/x[normalize-space("a" || "b")]', '/x[normalize - space()]', '/x[unknown()]', '/x[true()]', '/x[not(1)]', '/x[count(y)]',
+    '/x[y]', '/x[y = 1]', '/x[./y]', '/x[@a = $b]', '/x[#]', '/x[1;2]', '/x[1,2]', '/x[,]', '/x[1 2 3]', '/x["a"1]', '/x[1"a"]',
+    '/x[@a="b"]/y[@c=\'d\']//z[last()]', '//x[@a = "1" or @b = 2 and @c != 3]', '/x[1]garbage', '/x[1] / y', '/x[1]\t//\ty [ 2 ]',
+]
+
+H_TOKENS = ['@a', '@n', '@*', '@a-b', '1', '2', '10', '0', '.5', '2.5', '-.5', '-1', '"a"', "'b'", '""', '"x y"', '"a]b"', "'['", '"\\"', "'\\'",
+            '"a\\"b"', 'text()', 'last()', 'position()', 'Text ( )', 'LAST()', 'normalize-space()', 'normalize-space(', 'concat(',
+            'contains(', 'Concat (', '(', ')', '(', ')', ',', ',', '=', '!=', '<', '<=', '>', '>=', '||', '+', '-', '*', 'div', 'mod', 'and', 'or',
+            'AND', 'Or', 'DIV', 'and ', 'or ', 'foo', 'foo(', '[', ']', '"', "'", '\\', '!', '|', '$', '.', '::', '/', '//', '\n']
+H_STEPS = ['/', '//', '/', '//', ' / ', '/ ', '///', '']
+H_AXES = ['', '', '', '', 'child::', 'parent::', 'ancestor::', 'ancestor-or-self::', 'descendant::', 'descendant-or-self::', 'self::',
+          'Parent::', 'CHILD::', 'child ::', 'child:: ', 'following::', 'ancestor-or::']
+H_NAMES = ['div', 'span', '*', 'P', 'child', 'CHILD', 'Child', 'x1', '_y', 'a-b', '1a', '', 'node', 'self']
+H_SUFFIX = ['', '', '', '', '', '::node()', '::node( )', '::Node()', '::node', '::text()', '::x', '::']
+H_MUT = ' \t()[]"\'\\,@=<>!|+-*/:.-09adnortxivm\n'
+
+
+def hostile_ws(rng):
+    r = rng.random()
+    return '' if r < 0.4 else ' ' if r < 0.8 else rng.choice(['  ', '\t', ' \t', '\n'])
+
+
+def hostile_soup(rng):
+    out = []
+    for _ in range(rng.randint(1, 3)):
+        out.append(rng.choice(H_STEPS) + rng.choice(H_AXES) + rng.choice(H_NAMES) + rng.choice(H_SUFFIX))
+        for _ in range(rng.choice([0, 1, 1, 1, 2])):
+            toks = [rng.choice(H_TOKENS) for _ in range(rng.choice([0, 1, 2, 3, 3, 4, 5, 6, 8]))]
+            body = ''.join(hostile_ws(rng) + t for t in toks) + hostile_ws(rng)
+            out.append(hostile_ws(rng) + '[' + body + ']' + hostile_ws(rng))
+    return ''.join(out)
+
+
+def hostile_mutate(text, rng):
+    t = list(text)
+    for _ in range(rng.choice([1, 1, 1, 2, 3])):
+        k = rng.random()
+        i = rng.randrange(len(t) + 1)
+        if k < 0.35 and t:
+            del t[min(i, len(t) - 1)]
+        elif k < 0.7:
+            t.insert(i, rng.choice(H_MUT))
+        elif k < 0.85 and t:
+            t[min(i, len(t) - 1)] = rng.choice(H_MUT)
+        elif len(t) > 2:
+            j = min(i, len(t) - 2)
+            t[j], t[j + 1] = t[j + 1], t[j]
+    return ''.join(t)
+
+
+def hostile_ok(text):
+    """keep the search of the two backtracking matchers small and the float arithmetic inside what the driver's Float
+    instance reproduces bit for bit (`mod` on non-integers is computed differently)"""
+    if text.count('"') + text.count("'") > 10 or len(text) > 160:
+        return False
+    if 'mod' in text.lower() and ('.' in text):
+        return False
+    return all(ord(c) < 128 for c in text)
+
 # ------------------------------------------------------------------------------------------------
 # generation
 
@@ -870,11 +1062,14 @@ class Check(PropCheck):
             'expressions (<= 5 steps, <= 3 predicates per step, predicate depth <= 3, three precedence levels, all operators, '
             'functions, axes) on random documents of up to 60 elements in which every element has a numeric attribute; rendered '
             'to text with random white space, quote style and letter case; evaluated from the document, from elements and from '
-            'collections through every entry point; a case is non-trivial when some receiver gives a non-empty result or the '
-            'expression has a predicate, distinct by canonical JSON')
+            'collections through every entry point; plus hostile expression texts (a fixed list of corner inputs, token soup, '
+            '1-3 character mutations of well-formed renderings) on which only raises / parsed structure is compared; a case is '
+            'non-trivial when some receiver gives a non-empty result or the expression has a predicate (hostile: the text has '
+            'more than one character), distinct by canonical JSON')
     assumptions = [
-        'the text of an expression is turned into the flat body-element list by the library\'s regex tokenizers: tie only '
-        '(rendered syntax trees with random white space / quotes / case against the tree sent to the model)',
+        'the regex tokenizers are modelled (AHP/Model/XPathParse.lean, ASCII-exact) and proved to read the text of every '
+        'writable expression, in every layout (white space / letter case / quote: a superset of what is randomised here), as its '
+        'flat form (parse_render); malformed texts: tie only (hostile texts compare the parsed structure with the library)',
         'numbers: theorems over an abstract numeric structure; the driver uses IEEE doubles (Lean Float) like CPython',
         'normalize-space() strips leading/trailing white space only; arithmetic operators share one precedence level, and so do '
         'and/or (left to right): the reading of the property text that the code and the reference interpreter share',
@@ -913,12 +1108,44 @@ class Check(PropCheck):
                 steps = gen.steps_guided(ref, start, 2 if small else 5, 1 if small else 3, 2 if small else 3)
             yield Case({'doc': doc, 'steps': steps, 'recv': recv,
                         'style': 0 if rng.random() < 0.1 else rng.randrange(1 << 30)}, 'random')
+        # hostile / malformed texts: the fixed list, token soup, mutations of well-formed renderings
+        for t in HOSTILE_FIXED:
+            yield Case({'hostile': t}, 'hostile-fixed')
+        n = 16000 if tier == 'thorough' else 2500
+        doc = gen.doc(8)
+        gen.set_doc(doc)
+        for i in range(n):
+            r = rng.random()
+            if r < 0.45:
+                t = hostile_soup(rng)
+            else:
+                steps = gen.steps(3, 2, 2)
+                t = render_expr(steps, 0 if rng.random() < 0.3 else rng.randrange(1 << 30))
+                if r < 0.95:
+                    t = hostile_mutate(t, rng)
+            if hostile_ok(t):
+                yield Case({'hostile': t}, 'hostile')
 
     def nontrivial(self, d):
+        if 'hostile' in d:
+            return len(d['hostile'].strip()) > 1
         return any(s[3] for s in d['steps']) or len(d['steps']) > 1
 
     def features(self, d):
         fs = set()
+        if 'hostile' in d:
+            t = d['hostile']
+            out = lib_parsed(t)
+            fs.add('hostile:' + ('raises' if out == 'err' else 'parses'))
+            if out != 'err':
+                for k in ('pred', 'group', 'concat', 'contains', 'nspace', 'bool', 'self', 'num', 'str', 'attr'):
+                    if '(' + k in out:
+                        fs.add('hostile-parsed:' + k)
+            for k, what in (('"', 'dquote'), ("'", 'squote'), ('\\', 'backslash'), ('(', 'paren'), ('::', 'axis-or-suffix'),
+                            ('\n', 'newline'), ('[]', 'empty-pred'), (',', 'comma')):
+                if k in t:
+                    fs.add('hostile-text:' + what)
+            return sorted(fs)
         fs.add('steps=%d' % len(d['steps']))
         n = doc_size(d['doc'])
         fs.add('doc:' + ('1' if n == 1 else '<=8' if n <= 8 else '<=20' if n <= 20 else '<=60'))
@@ -957,6 +1184,11 @@ class Check(PropCheck):
         return sorted(fs)
 
     def shrink(self, d):
+        if 'hostile' in d:
+            t = d['hostile']
+            for i in range(len(t)):
+                yield {'hostile': t[:i] + t[i + 1:]}
+            return
         steps = d['steps']
         # fewer receivers
         if len(d['recv']) > 1:
@@ -1066,14 +1298,18 @@ class Check(PropCheck):
         return render_expr(d['steps'], d['style'])
 
     def encode(self, d):
+        if 'hostile' in d:
+            return sx('text', enc(d['hostile']))
         rows = doc_table(d['doc'])
         elems = [[enc(r[0]), 'none' if r[1] is None else r[1], [[enc(k), enc(v)] for k, v in r[2]], enc(r[3])] for r in rows]
         wrapper = 1 if len(d['doc']['roots']) > 1 else 0
         recvs = [[r[0]] if r[0] == 'doc' else ['el', r[1]] if r[0] == 'el' else ['coll'] + list(r[1]) for r in d['recv']]
         steps = [[s[0], s[1] or 'none', enc(s[2]), [enc_pred(p) for p in s[3]]] for s in d['steps']]
-        return sx(elems, wrapper, recvs, steps)
+        return sx(elems, wrapper, recvs, steps, enc(self.text(d)))
 
     def impl(self, d):
+        if 'hostile' in d:
+            return lib_parsed(d['hostile'])
         B = Built.get(d['doc'])
         if not B.ok:
             return '(doc-mismatch)'
@@ -1089,6 +1325,8 @@ class Check(PropCheck):
     def compare(self, model_out, impl_out, d):
         if model_out == impl_out:
             return None
+        if 'hostile' in d:
+            return 'text=%r model=%s impl=%s' % (d['hostile'], model_out[:300], impl_out[:300])
         if model_out.endswith('specdiff)') and model_out[:-len('specdiff)')] + 'ok)' == impl_out:
             # model and library agree; the model's two evaluators differ: only legitimate when a constant folded at
             # compile time raises although no element reaches the predicate
@@ -1119,6 +1357,8 @@ class Check(PropCheck):
             return ('error', None)
 
     def oracle(self, d):
+        if 'hostile' in d:
+            return None             # the property speaks about the denotation of expressions; these have none
         B = Built.get(d['doc'])
         if not B.ok:
             return ('doc-mismatch', 'the parsed document does not have the generated shape')
